@@ -22,7 +22,7 @@ STRAT = {"mean": 0, "median": 1, "most_frequent": 2, "constant": 3}
 
 def gen_case(rng, name):
     cfg = T.config(rng, name)
-    n, m = gen.shape(rng, 9, 5, 3, 1, big=0.0)
+    n, m = gen.shape(rng, 9, 5, 3, 1, big=0.0, huge=0.03 if name != "IterativeImputer" else 0.0)
     mode = rng.choice(["tinyint", "int", "dyadic"])
     if mode == "tinyint":
         mtx = [[float(rng.choice([1, 2, 3, 7])) for _ in range(m)] for _ in range(n)]
